@@ -1,6 +1,7 @@
 import GqlProofs.Lemmas.VarsLemmas
 import GqlProofs.Lemmas.ConformsLemmas
 import GqlProofs.Lemmas.VarsFixtures
+import GqlProofs.Lemmas.VarsFuel
 /-
   C14 — variable coercion is total and type-conforming.
 
@@ -43,6 +44,22 @@ theorem C14_total (s : Schema) (op : OperationDef) (vars : VarMap)
   have := coerceLoop_noPanic s op vars hclosed hwf op.vars .nil hop
   unfold coerce at h
   simp [h, NoPanic] at this
+
+/-- … and the fuel of the model is an artefact without consequence: coercion RETURNS — values or
+    an error (`outOfFuel` is never the outcome: `fuelFor` suffices). -/
+theorem C14_total_returns (s : Schema) (op : OperationDef) (vars : VarMap)
+    (hclosed : InputsClosed s) (hfn : InputFieldsNodup s)
+    (hop : ∀ v ∈ op.vars, ∃ d, s.type? v.type.name = some d)
+    (hwf : wfFieldsB true vars = true) :
+    (∃ m, coerce s op vars = .ok m) ∨ (∃ msg path alts, coerce s op vars = .err msg path alts) := by
+  have h1 := C14_total s op vars hclosed hop hwf
+  have h2 := coerceLoop_fuel s hfn op vars op.vars .nil (fun _ h => h)
+  unfold coerce at h1 h2 ⊢
+  cases h : coerceLoop s op vars op.vars .nil with
+  | ok m => exact Or.inl ⟨m, rfl⟩
+  | err msg path alts => exact Or.inr ⟨msg, path, alts, rfl⟩
+  | panic msg => exact absurd h (h1 msg)
+  | outOfFuel => simp [h, NotFuel] at h2
 
 /-- former witness of the typed-map panic: `$v: In` with `map[string]int{"l": 1}` (the coerced list
     `[[1]]` is not assignable to `int`) now returns a copy of the object as
@@ -143,6 +160,26 @@ theorem C14_conforms_declared_only (s : Schema) (op : OperationDef) (vars m : Va
     ∀ v ∈ op.vars, ∀ y, m.lookup v.var = some y → noTypenameB y = true → Conforms s v.type y := by
   intro v hv y hy hno
   exact conforms_dropT s false v.type y hno (C14_conforms s op vars m hclosed hfn hplain hnodup hwf h v hv y hy)
+
+/-- The key `__typename` is only handed on, never invented: when no object inside what is supplied
+    for a variable (its entry in the variables map, else its converted default value) has that
+    key, the value returned for the variable conforms WITHOUT any exception. -/
+theorem C14_conforms_no_typename_supplied (s : Schema) (op : OperationDef) (vars m : VarMap)
+    (hclosed : InputsClosed s) (hfn : InputFieldsNodup s) (hplain : EnumNamesPlain s)
+    (hnodup : (op.vars.map (·.var)).Nodup)
+    (hwf : wfFieldsB true vars = true)
+    (h : coerce s op vars = .ok m)
+    (v : VarDef) (hv : v ∈ op.vars)
+    (hsup : ∀ x, suppliedValue vars v = .ok (some x) → noTypenameB x = true) :
+    ∀ y, m.lookup v.var = some y → Conforms s v.type y := by
+  intro y hy
+  apply C14_conforms_declared_only s op vars m hclosed hfn hplain hnodup hwf h v hv y hy
+  obtain ⟨acc, c, h1, h2, h3⟩ := coerceLoop_entry op.vars .nil m hnodup h v hv
+  rcases coerceVar_shape h1 with ⟨e, _⟩ | ⟨x, y', e1, e2, _⟩
+  · rw [h2, e, h3] at hy; simp [GoFields.lookup] at hy
+  · obtain ⟨y'', e3, hn⟩ := coerceSupplied_noTypename (hsup x e1) e2
+    rw [h2, e3, GoFields.lookup_set] at hy
+    simp at hy; subst hy; exact hn
 
 /-- R14c (known finding, not repaired): the undeclared key `__typename` is accepted and handed on;
     the returned value is not `Conforms`, only `ConformsExceptTypename`. -/
